@@ -35,6 +35,12 @@ check("C12", "model_checking",
       "stateless model checking of the real code under loom's controlled scheduler (preemption-bounded DPOR) with a linearization oracle",
       "DESIGN.md §5 C12", "lm")
 
+check("C18", "model_checking",
+      "Sequential: breadth-first search to a FIXPOINT over the finite state space of the real PeerRegistry with 3 peers and 3 keys (every reachable state, every letter in every state), plus all un-merged histories of depth 6/7; after every step every observer and all four broadcast encodings (one sink refusing) are compared with a reference model. Concurrent: loom explores all interleavings (unbounded DPOR) of 2-3 threads of alias/remove/insert/lookup/broadcast on colliding keys over the real peer.rs; each schedule must be linearizable w.r.t. the same model.",
+      "Re-inserting an id that is still present is outside the documented precondition. HashMap iteration order is not controlled (results compared as sets).",
+      "explicit-state search to fixpoint on the real object by replay + loom stateless model checking with brute-force linearizability",
+      "DESIGN.md §5 C18", "mc+lm")
+
 ALL = [f"C{i:02d}" for i in range(1, 20)]
 for pid in ALL:
     if pid not in CHECKS:
@@ -51,9 +57,9 @@ manifest = dict(
         add_only=True,
     ),
     engines=[
-        dict(name="mc", path="/verif/mc", serves_properties=sorted(p for p, c in CHECKS.items() if c["engine"] == "mc"),
+        dict(name="mc", path="/verif/mc", serves_properties=sorted(p for p, c in CHECKS.items() if "mc" in c["engine"]),
              kind_free_text="Rust harness crate linking the real repe crate: bounded-exhaustive history/input/environment-script enumeration with reference models"),
-        dict(name="lm", path="/verif/lm", serves_properties=sorted(p for p, c in CHECKS.items() if c["engine"] == "lm"),
+        dict(name="lm", path="/verif/lm", serves_properties=sorted(p for p, c in CHECKS.items() if "lm" in c["engine"]),
              kind_free_text="loom (DPOR, preemption-bounded) exploration of thread interleavings of the real repe sources built with --cfg repe_verif_loom"),
     ],
     checks=[CHECKS[p] for p in ALL if p in CHECKS],
